@@ -27,17 +27,19 @@ def cancel_jobs(tier, prop):
                           bound='cancel of ALL %s requests: %d lead requests with %s sub-requests' % ('get' if kind else 'put', nl, nn[:nl])))
     return js
 
-def commit_jobs(tier, prop):
+def commit_jobs(tier, prop, only=None):
     js = []
     shapes = [(2, (1, 1, 1), m) for m in range(4)] + [(3, (1, 2, 1), 2), (3, (1, 2, 1), 5)]
     if tier != 'quick':
         shapes += [(3, (1, 2, 1), m) for m in (0, 1, 3, 4, 6, 7)] + [(1, (1, 1, 1), m) for m in (0, 1)] + [(3, (2, 1, 2), m) for m in (1, 2, 6)]
     for nl, nn, mask in shapes:
+        if only is not None and (nl, mask) not in only:
+            continue
         js.append(Job('%s/req_commit/put/leads%d_subs%s_completes%s' % (prop, nl, ''.join(map(str, nn[:nl])), format(mask, '0%db' % nl)[::-1]), prop, WT + ['src/drivers/common/error_mpi2nc.c'], 'C02_req_commit.c',
                       enforce='ncmpio_wait.c:req_commit', replace=['ncmpio_wait.c:extract_reqs', 'ncmpio_wait.c:wait_getput', 'ncmpii_in_swapn'], extra_src=MODEL,
                       defines=['-DNL=%d' % nl, '-DNN0=%d' % nn[0], '-DNN1=%d' % nn[1], '-DNN2=%d' % nn[2], '-DSELMASK=%d' % mask],
                       canaries=(['write_error'] if mask else ['nothing_to_do']) + (['all_completed'] if mask == (1 << nl) - 1 else []) + (['one_completed'] if bin(mask).count('1') == 1 and nl > 1 else []),
-                      unwind=26, kind='bounded', timeout=420, mem_gb=12,
+                      unwind=26, kind='bounded', timeout=420, mem_gb=12, solver=['--sat-solver', 'cadical'],
                       unwindset=['ncmpio_wait.c:req_commit.%d:%d' % (i, nl + 2) for i in range(6)],
                       bound='%d pending lead put requests with %s sub-requests; completed subset %s (enumerated); flags, record numbers, buffers symbolic' % (nl, nn[:nl], format(mask, '0%db' % nl)[::-1]),
                       assumptions=['req_commit: extract_reqs by (assumed) contract - selection exactness of extract_reqs itself is not yet enforced (see F7)']))
@@ -50,12 +52,14 @@ def post_jobs(tier, prop):
                       ['src/drivers/common/utils.c', 'src/drivers/common/convert_swap.m4', 'src/drivers/common/create_imaptype.c', 'src/drivers/common/error_mpi2nc.c', 'src/drivers/common/ncx.m4'],
                       'C02_igetput.c', enforce='ncmpio_igetput_varm', replace=['ncmpio_pack_xbuf'], include_tus={'TU_i_getput_c': 'src/drivers/ncmpio/ncmpio_i_getput.m4'},
                       extra_src=MODEL, defines=['-DNLP=%d' % nlp, '-DNEWN=%d' % newn, '-DNEWPOS=%d' % pos], canaries=['record_request'] + (['appended_last'] if pos == nlp else []) + (['inserted_first'] if pos == 0 and nlp else []),
-                      unwind=26, kind='bounded', timeout=600, mem_gb=12,
+                      unwind=26, kind='bounded', timeout=600, mem_gb=12, solver=['--sat-solver', 'cadical'],
                       bound='insertion position %d; ' % pos + '%d pending lead puts; new high-level iput on a 1-D int variable with %d record(s); allocation granule NC_REQUEST_CHUNK = 4 (verification-only; library value 1024)' % (nlp, newn)))
     return js
 
 # post_jobs (ncmpio_igetput_varm): cbmc ends with ERROR/out-of-memory on every instance tried (even with the insertion position enumerated); parked, not registered
 def jobs(tier, ws):
-    # req_commit (commit_jobs): every back end needs > 7 min per obligation even on a 2-request queue (probed);
-    # not registered so that the check stays decisive - see DESIGN.md
-    return cancel_jobs(tier, 'C02')
+    # req_commit (commit_jobs): MiniSat needs > 7 min per obligation even on a 2-request queue; CaDiCaL (--sat-solver cadical) 1-2.5 min per instance
+    import os
+    if os.environ.get('VERIF_PARKED'):
+        return post_jobs(tier, 'C02')
+    return cancel_jobs(tier, 'C02') + commit_jobs(tier, 'C02')
